@@ -20,6 +20,7 @@ working tree and writes coq/C15/gen/Facts.v:
   gen_wview_from_buffer / gen_wview_off / gen_wview_size   getWrittenView() = make_shared<View>(buffer, off, size)
   gen_prefix : list (N * Z)        byte width of the length variable streamed first by
       1 vector<<  2 vector>>  3 AbstractArray<<  4 string<<  5 const char*<<  6 string>>
+  gen_reader_state : bool          BufferReader's data members are exactly {cursor, buffer}: nothing of the buffer is cached
   gen_overloads : list ovl         EVERY operator<< / operator>> declared in namespace rkcommon::networking, classified by its
       exact signature (return type incl. the enable_if guard, first parameter, value parameter); OvOther = not one of the eight
   gen_selection : list (N * N * ovl)   which overload clang selects for  stream << value / stream >> value  as the first
@@ -708,6 +709,14 @@ def main(argv):
     text.append("Definition gen_wview_from_buffer : bool := %s." % ("true" if wsrc else "false"))
     text.append("Definition gen_wview_off : sx := %s." % woff)
     text.append("Definition gen_wview_size : sx := %s." % wsize)
+    # BufferReader's data members: the reader's whole state must be (cursor, buffer) - no cached extent
+    fields = []
+    for d in docs:
+        for n, ps in walk(d):
+            if n.get("kind") == "CXXRecordDecl" and n.get("name") == "BufferReader" and n.get("completeDefinition"):
+                fields = [c.get("name") for c in inner(n) if c.get("kind") == "FieldDecl"]
+    text.append("Definition gen_reader_state : bool := %s.  (* data members: %s *)" %
+                ("true" if sorted(fields) == ["buffer", "cursor"] else "false", ", ".join(fields)))
     kinds, idmap = overload_table(docs)
     text.append("Definition gen_overloads : list ovl := [%s]." % "; ".join(kinds))
     text.append("Definition gen_selection : list (N * N * ovl) :=\n  [%s]." %
@@ -735,6 +744,7 @@ def unknown_text():
             "Definition gen_fav_init : fav_init := FUnknown.\nDefinition gen_fav_ptr : fav_ptr := PUnknown.\n"
             "Definition gen_fixedarray_shared_storage : bool := false.\nDefinition gen_wview_from_buffer : bool := false.\n"
             "Definition gen_wview_off : sx := XUnknown.\nDefinition gen_wview_size : sx := XUnknown.\n"
+            "Definition gen_reader_state : bool := false.\n"
             "Definition gen_overloads : list ovl := [OvOther].\nDefinition gen_selection : list (N * N * ovl) := [].\n"
             "Definition gen_prefix : list (N * Z) := [].\nDefinition gen_guard : bool := false.\nDefinition gen_overload : list (N * bool) := [].\n")
 
